@@ -549,7 +549,11 @@ func newSSAStyleFromString(content string, format map[int]string) (s *ssaStyle, 
 		// Bool
 		case ssaStyleFormatNameBold, ssaStyleFormatNameItalic, ssaStyleFormatNameStrikeout,
 			ssaStyleFormatNameUnderline:
-			var b = item == "-1"
+			// -1 is true in the specs, but any other non zero value (the writer uses 1) is true as well
+			var b bool
+			if i, errAtoi := strconv.Atoi(item); errAtoi == nil && i != 0 {
+				b = true
+			}
 			switch attr {
 			case ssaStyleFormatNameBold:
 				s.bold = astikit.BoolPtr(b)
